@@ -218,42 +218,49 @@ def _model_handler(alg, cls):
 
 
 def _model_apply(alg, e, mode):
-    """Expected outcome of applying a harness algorithm: tag of the root, or 'ValueError'
-    when some visited node has no handler."""
+    """Expected outcome of applying a harness algorithm: (tag of the root, sorted list of
+    the handler tags of every node the dispatcher must visit), or ('!ValueError', None)
+    when some visited node has no handler.
+
+    MultiFunction via map_expr_dag: every structurally distinct node once, children first,
+    nothing below a cut-off ('pre') handler.  MultiFunction called directly: the root only.
+    Transformer.visit: plain recursion (no memo), children only for 'post' handlers."""
     base = type(alg)._sim_base
-    seen = {}
+    trail = []
+    seen = set()
 
     def rec(n):
-        k = id(n)
-        if k in seen:
-            return seen[k]
+        memo = base == "MF"
+        if memo and n in seen:
+            return None
+        if memo:
+            seen.add(n)
         hn, style = _model_handler(alg, type(n))
         if hn is None:
             raise ValueError("undefined")
-        if mode == "call":
-            seen[k] = hn
-            return hn
-        if style == "post":
-            for c in n.ufl_operands:
-                rec(c)
-        seen[k] = hn
+        if mode != "call" or base == "TR":
+            if style == "post":
+                for c in n.ufl_operands:
+                    rec(c)
+        trail.append(hn)
         return hn
 
-    # recursion on small expressions only
     try:
-        return rec(e)
+        root = rec(e)
+        return root, sorted(trail)
     except ValueError:
-        return "!ValueError"
+        return "!ValueError", None
 
 
 def xop_apply(node, op):
     """['apply', None, alg_slot, expr_slot, mode] -> {'got':..., 'want':...} for harness
-    algorithms."""
+    algorithms (root handler tag and the multiset of handler tags of all visited nodes)."""
     _, _, aslot, eslot, mode = op
     alg = node.get(aslot)
     e = node.get(eslot)
-    want = _model_apply(alg, e, mode)
     base = type(alg)._sim_base
+    want, want_trail = _model_apply(alg, e, mode)
+    start = len(alg.trail)
     try:
         if base == "MF":
             if mode == "call":
@@ -267,14 +274,18 @@ def xop_apply(node, op):
 
                 got = map_expr_dag(alg, e, compress=False)
         else:
-            # visit() always recurses for post-handlers: the model must too
-            want = _model_apply(alg, e, "map")
             got = alg.visit(e)
         if not isinstance(got, str):
             got = "?" + type(got).__name__
     except BaseException as ex:  # noqa: B036
         got = "!" + type(ex).__name__
-    return {"got": got, "want": want}
+    res = {"got": got, "want": want}
+    if not got.startswith("!") and want_trail is not None:
+        got_trail = sorted(alg.trail[start:])
+        if got_trail != want_trail:
+            res["got_trail"] = got_trail
+            res["want_trail"] = want_trail
+    return res
 
 
 _REAL_ALGS = {
